@@ -334,7 +334,10 @@ def run_compiler_check(ctx, res, prop):
             if o != list(set(l)):
                 res.disagree(dict(label="setorder", list=l), "iteration order of set(list) differs", code=list(set(l)), model=o)
     replies = ctx.model(reqs)
-    stats = dict(event_free=0, event_free_bad=0, failing=0, y1_only=0, in_fragment=0, in_fragment_bad=0)
+    stats = dict(event_free=0, event_free_bad=0, failing=0, y1_only=0, in_fragment=0, in_fragment_bad=0,
+                 in_general=0, in_general_only=0, in_general_cache_hit=0)
+    if prop in ("C03", "C06"):
+        stats.update(in_general=0, in_general_only=0, in_general_cache_hit=0)
     for n, k in enumerate(idx):
         job, out = jobs[k], outs[k]
         label, kind, payload, optn, unc, _ = job
@@ -370,7 +373,9 @@ def run_compiler_check(ctx, res, prop):
             if fail and j["wrong"] is None and j["dirty"] is None:
                 stats["y1_only"] += 1
         events = set(rep.get("events", [])) if rep and "error" not in rep else set()
-        # the instance lies in the class of one of the Lean fragment theorems (C02_fragment_partial: single tree-like
+        # the instance lies in the class of C02_general_partial (`in_general`: definition lists with cache hits, shared
+        # sub-expressions across statements, re-binding, several return bits, uncompute on or off) or of one of the
+        # older Lean fragment theorems (C02_fragment_partial: single tree-like
         # definition; C02_fragment_consts: + constants; C02_fragment_multi / C02_fragment_named: straight-line
         # definition lists – the driver's `in_fragment` is their disjunction for this run; it reports the last two
         # for uncompute off only, the theorems cover uncompute on as well since the port to the repaired compiler,
@@ -380,10 +385,19 @@ def run_compiler_check(ctx, res, prop):
         frag_thm = "C02_fragment_partial"
         if in_frag:
             stats["in_fragment"] += 1
+            if rep.get("in_general"):
+                # the class of C02_general_partial (cache hits, sharing across statements, re-binding)
+                stats["in_general"] += 1
+                frag_thm = "C02_general_partial"
+                if rep.get("in_general_only"):
+                    stats["in_general_only"] += 1
+                if "cacheHit" in events:
+                    stats["in_general_cache_hit"] += 1
             if not rep.get("valid", True):
                 res.disagree(case, "model instance inside the class of a C02 fragment theorem rejected by the Lean validator "
                              "(contradicts the theorem's statement)", code=None, model=dict(valid=False))
-        # C03 / C06: the classes of C03_fragment_partial (inCleanFragment) / C06_fragment_partial (inXorFragment),
+        # C03 / C06: the classes of C03_general_partial (inGeneralCleanClass) / C06_general_partial (inGeneralXor with
+        # ret_never_control) and of C03_fragment_partial (inCleanFragment) / C06_fragment_partial (inXorFragment),
         # reported by the driver for uncompute=True runs (both theorems are proved for the model of the repaired
         # compiler; the classes no longer restrict the arity of Or); same rule
         if prop in ("C03", "C06") and unc and rep is not None and not mismatch:
@@ -392,6 +406,15 @@ def run_compiler_check(ctx, res, prop):
             if rep.get(key):
                 in_frag = True
                 stats["in_fragment"] += 1
+                gkey = "in_clean_general" if prop == "C03" else "in_xor_general"
+                if rep.get(gkey):
+                    # the class of C03_general_partial / C06_general_partial (definition lists, cache hits)
+                    stats["in_general"] += 1
+                    frag_thm = "C03_general_partial" if prop == "C03" else "C06_general_partial"
+                    if rep.get(gkey + "_only"):
+                        stats["in_general_only"] += 1
+                    if "cacheHit" in events:
+                        stats["in_general_cache_hit"] += 1
                 bad = (not rep.get(vkey, True)) or (prop == "C06" and rep.get("ret_never_control") is False)
                 if bad:
                     res.disagree(case, f"model instance inside the class of {frag_thm} rejected by the Lean validator "
@@ -443,14 +466,22 @@ def run_compiler_check(ctx, res, prop):
                 "independent simulator. distinct by (program, optimizer, uncompute); non-trivial = at least one compound "
                 "expression and >= 2 input bits")
     if prop == "C02":
+        res.notes.append(f"{stats['in_general']} compiled instances lie in the decidable class of C02_general_partial "
+                         f"(inGeneralClass: cache hits, sharing across statements, re-binding; {stats['in_general_only']} of them in no "
+                         f"older class, {stats['in_general_cache_hit']} with a cache hit in the model run)")
         res.notes.append(f"{stats['in_fragment']} compiled instances lie in the decidable class of a Lean fragment theorem "
-                         "(C02_fragment_partial: one tree-like definition; C02_fragment_consts: + constants; "
+                         "(C02_general_partial, C02_fragment_partial: one tree-like definition; C02_fragment_consts: + constants; "
                          "C02_fragment_multi / C02_fragment_named: straight-line definition lists with re-used freed ancillas; "
                          "the driver reports these two for uncompute off, the theorems hold for uncompute on and off) with "
                          "the model reproducing the real gate list; all four are proved for the model of the repaired compiler; "
                          f"{stats['in_fragment_bad']} of these instances fail")
     if prop in ("C03", "C06"):
         thm, cls = (("C03_fragment_partial", "inCleanFragment") if prop == "C03" else ("C06_fragment_partial", "inXorFragment"))
+        gthm = "C03_general_partial (inGeneralClean)" if prop == "C03" else "C06_general_partial (inGeneralXor and ret_never_control)"
+        res.notes.append(f"{stats['in_general']} compiled instances lie in the class of {gthm}: definition lists with the "
+                         "intermediates first and the return bits last, every name defined once, no constants, any sharing "
+                         f"of sub-expressions; {stats['in_general_only']} of them in no older class, "
+                         f"{stats['in_general_cache_hit']} with a cache hit in the model run")
         res.notes.append(f"{stats['in_fragment']} compiled instances lie in the decidable class of the Lean theorem {thm} "
                          f"({cls}: one definition, tree-like expression over the arguments with Or of any arity, the return "
                          "name requested - or, for C03, none) with the model reproducing the real gate list; the theorem is proved for the model of "
